@@ -466,6 +466,16 @@ class Check:
         self.outcomes = set()
         self.nontrivial = set()
         self.assumptions = []
+        if not self.replay:
+            # replay files of earlier runs of this check are stale
+            d = os.path.join(VERIF, 'replays', self.pid)
+            if os.path.isdir(d):
+                for f in os.listdir(d):
+                    if f.endswith('.case'):
+                        try:
+                            os.unlink(os.path.join(d, f))
+                        except OSError:
+                            pass
         self.max_violations = int(os.environ.get('VERIF_MAXV', 40))
         self.per_kind = int(os.environ.get('VERIF_PERKIND', 4))
         self.kind_counts = {}
